@@ -15,7 +15,8 @@ def _val(x):
 
 
 class Src(Command):
-    inputs = {"V": params.NumberParameter()}
+    # Q: a number that does not enter the result (a tolerance, a no-data marker, ...)
+    inputs = {"V": params.NumberParameter(), "Q": params.NumberParameter(required=False)}
     output = params.DataParameter()
 
     def execute(self, **kwargs):
@@ -32,12 +33,14 @@ class Op(Command):
         "N3": params.ListParameter(params.ListParameter(params.ListParameter(params.ResultParameter())), required=False),
         "Tag": params.StringParameter(required=False),
         "Labels": params.ListParameter(params.StringParameter(), required=False),
+        "Q": params.NumberParameter(required=False),
+        "QL": params.ListParameter(params.NumberParameter(), required=False),
     }
     output = params.DataParameter()
 
     def execute(self, **kwargs):
         EXEC_LOG.append(self.result_name)
-        return ("op", self.result_name, tuple((k, _val(kwargs[k])) for k in sorted(kwargs) if k != "Metadata"))
+        return ("op", self.result_name, tuple((k, _val(kwargs[k])) for k in sorted(kwargs) if k not in ("Metadata", "Q", "QL")))
 
 
 class Sink(Command):
@@ -99,3 +102,17 @@ class Flaky(Command):
         if FLAKY["fail"]:
             raise IOError("input not available yet")
         return ("flaky", self.result_name, tuple((k, _val(kwargs[k])) for k in sorted(kwargs) if k != "Metadata"))
+
+
+class Big(Command):
+    """Produces a raster of Cells float64 cells (1 + the sum of its inputs): results of tens of megabytes."""
+    inputs = {"Cells": params.NumberParameter(), "L": params.ListParameter(params.ResultParameter(), required=False)}
+    output = params.DataParameter()
+
+    def execute(self, **kwargs):
+        import numpy
+        EXEC_LOG.append(self.result_name)
+        out = numpy.ma.array(numpy.ones(int(kwargs["Cells"]), dtype="float64"))
+        for c in kwargs.get("L") or []:
+            out = out + c.result
+        return out
